@@ -72,6 +72,8 @@ def _case(draw):
                          "psi_J": draw(gen.rotvec(min_exp=-2, near_max=False)) if draw(st.booleans()) else None}
     # a second assembly of the finished system must leave everything as it is
     spec["assemble_twice"] = draw(st.booleans())
+    # order in which force law and interaction are added to the System
+    spec["law_first"] = draw(st.integers(0, 3)) == 0
     if draw(st.integers(0, 3)) == 0:
         # history: the interaction is assembled first, the system is given a new initial configuration (body 2 rotated
         # about the joint axis / moved rigidly), and only then the force law is attached and the system re-assembled
